@@ -609,6 +609,57 @@ def _enum_shape(a):
     return None
 
 
+_MIXED = None
+
+
+def mixed_enum_sites():
+    """attributes annotated Union[<one enumeration>, <classes / containers> ...]: the declared values still have to be
+    accepted there (the reject clause is read for directly typed positions only)"""
+    global _MIXED
+    if _MIXED is not None:
+        return _MIXED
+    L = _lsp()
+    conv = real_converter()
+    out = collections.OrderedDict()
+    seen = set()
+    for name in sorted(L.ALL_TYPES_MAP):
+        cls = L.ALL_TYPES_MAP[name]
+        if not (isinstance(cls, type) and attrs.has(cls)):
+            continue
+        for f in attrs.fields(cls):
+            a = f.type
+            if typing.get_origin(a) is not Union or _enum_shape(a) is not None:
+                continue
+            args = [x for x in typing.get_args(a) if x is not NoneType]
+            enums = [x for x in args if isinstance(x, type) and issubclass(x, enum.Enum)]
+            if len(enums) != 1 or enums[0].__name__ not in SPEC.enums:
+                continue
+            key = repr(a)
+            if key in seen:
+                out[[k for k, v in out.items() if v["key"] == key][0]]["paths"].append("%s.%s" % (name, f.name))
+                continue
+            seen.add(key)
+            try:
+                h = conv._structure_func.dispatch(a)
+            except Exception:
+                continue
+            mid = "m%d" % len(out)
+            out[mid] = {"key": key, "annotation": a, "enum": enums[0].__name__, "values": SPEC.enum_values(enums[0].__name__), "handler": h, "paths": ["%s.%s" % (name, f.name)]}
+    _MIXED = out
+    return out
+
+
+def mixed_accepts_declared(mid, k):
+    m = mixed_enum_sites()[mid]
+    v = m["values"][k]
+    try:
+        r = m["handler"](v, m["annotation"])
+    except Exception as e:
+        _not_a_verdict(e)
+        return False
+    return r is not None and r == v and not isinstance(r, (dict, list))
+
+
 def annot_cases():
     global _ANNOT
     if _ANNOT is not None:
